@@ -65,7 +65,12 @@ pub fn collect_binders_pat(p: &syn::Pat, s: &mut BTreeSet<String>) { Binders(s).
 pub fn inline_tail_async(b: &mut syn::Block, cx: &mut Ctx) {
     fn strip(e: &Expr) -> &Expr { match e { Expr::Call(c) if c.args.len() == 1 && nospace(&c.func.to_token_stream().to_string()) == "Box::pin" => strip(&c.args[0]), Expr::Paren(p) => strip(&p.expr), other => other } }
     if let Some(Stmt::Expr(e, None)) = b.stmts.last() {
-        if let Expr::Async(a) = strip(e) { let inner = a.block.stmts.clone(); b.stmts.pop(); b.stmts.extend(inner); cx.fire("A5"); }
+        let stripped = strip(e);
+        if let Expr::Async(a) = stripped { let inner = a.block.stmts.clone(); b.stmts.pop(); b.stmts.extend(inner); cx.fire("A5"); }
+        else if !std::ptr::eq(stripped, e) && matches!(stripped, Expr::Call(_) | Expr::MethodCall(_)) {
+            // Box::pin(f(..)): the boxed future of a call is run by whoever awaits the closure's result
+            let call = stripped.clone(); b.stmts.pop(); b.stmts.push(Stmt::Expr(parse_quote!(#call.await), None)); cx.fire("A5");
+        }
     }
 }
 pub fn collect_binders_block(b: &syn::Block, s: &mut BTreeSet<String>) {
@@ -259,6 +264,29 @@ pub fn a5_normalise(b: &mut syn::Block, cx: &mut Ctx) -> bool {
     }
 }
 
+/// A6 (see main.rs): turns a `poll` of the fixed shape into an eager `await_(&mut self)`
+pub fn a6_poll_to_await(f: &mut crate::FnLike, cx: &mut Ctx) -> bool {
+    let _ = cx;
+    // output type: Poll<O> -> O
+    let out: syn::Type = match &f.sig.output { syn::ReturnType::Type(_, t) => match &**t { syn::Type::Path(tp) => { let seg = tp.path.segments.last().unwrap(); if seg.ident != "Poll" { return false; } match &seg.arguments { syn::PathArguments::AngleBracketed(ab) => match ab.args.first() { Some(syn::GenericArgument::Type(t)) => t.clone(), _ => return false }, _ => return false } } _ => return false }, _ => return false };
+    let mut stmts: Vec<Stmt> = f.block.stmts.iter().filter(|s| match s { Stmt::Macro(m) => !is_dropped_macro(&m.mac), _ => true }).cloned().collect();
+    if stmts.len() != 1 { return false; }
+    let Stmt::Expr(Expr::MethodCall(m), None) = stmts.remove(0) else { return false; };
+    if m.method != "map" || m.args.len() != 1 { return false; }
+    let Expr::Closure(cl) = &m.args[0] else { return false; };
+    let Some(pat) = closure_single_pat(cl) else { return false; };
+    let Expr::MethodCall(pu) = &*m.receiver else { return false; };
+    if pu.method != "poll_unpin" && pu.method != "poll" { return false; }
+    // <place>: `self.get_mut().field` -> `self.field`
+    let mut place = (*pu.receiver).clone();
+    struct G; impl VisitMut for G { fn visit_expr_mut(&mut self, e: &mut Expr) { visit_mut::visit_expr_mut(self, e); if let Expr::MethodCall(m) = e { if m.method == "get_mut" && m.args.is_empty() { let r = (*m.receiver).clone(); *e = r; } } } }
+    G.visit_expr_mut(&mut place);
+    let body = &cl.body;
+    f.block = parse_quote!({ let #pat = #place.poll_ready(); #body });
+    f.sig = parse_quote!(fn await_(&mut self) -> #out);
+    true
+}
+
 // ------------------------------------------------------------------------------------------
 // the body rewriter
 // ------------------------------------------------------------------------------------------
@@ -272,9 +300,12 @@ pub struct Rw<'c> {
     pub closures: usize,
     pub lifted_closures: Vec<LiftedClosure>,
     pub lift_prefix: String,
+    pub gen_idents: Vec<String>,          // generic type parameters of the enclosing item (for typed closure constructors)
+    pub typed_ctors: BTreeSet<String>,    // constructors whose signature the spec gives (`@sig <name>__new`)
 }
 /// a closure literal or async block that is used as a value (rules L1 / A3)
 pub struct LiftedClosure { pub k: usize, pub name: String, pub captures: Vec<String>, pub is_move: bool, pub inputs: Vec<syn::Pat>, pub body: syn::Block, pub is_async_block: bool, pub line: usize }
+fn name_for_ctor(c: &syn::Ident) -> String { c.to_string().trim_end_matches("__new").to_string() }
 fn ident(s: &str) -> syn::Ident { syn::Ident::new(s, Span::call_site()) }
 fn call_last_ident(e: &Expr) -> Option<String> {
     match e {
@@ -305,7 +336,7 @@ fn has_control_escape(e: &Expr) -> bool {
 }
 
 impl<'c> Rw<'c> {
-    pub fn new(cx: &'c mut Ctx, lifted: bool, binders: BTreeSet<String>, fn_name: String) -> Self { Rw { cx, lifted, binders, lift_prefix: fn_name.replace("::", "__").replace('@', "_"), fn_name, loops: 0, self_to_this: false, closures: 0, lifted_closures: vec![] } }
+    pub fn new(cx: &'c mut Ctx, lifted: bool, binders: BTreeSet<String>, fn_name: String) -> Self { Rw { cx, lifted, binders, lift_prefix: fn_name.replace("::", "__").replace('@', "_"), fn_name, loops: 0, self_to_this: false, closures: 0, lifted_closures: vec![], gen_idents: vec![], typed_ctors: BTreeSet::new() } }
 
     fn select_to_match(&mut self, m: &syn::Macro) -> Option<Expr> {
         let arms: Arms = match syn::parse2(m.tokens.clone()) { Ok(a) => a, Err(e) => { self.cx.err(format!("outside dialect: select! arms in {}: {}", self.fn_name, e)); return None; } };
@@ -435,6 +466,7 @@ impl<'c> VisitMut for Rw<'c> {
             }
         }
         // A1: `callee(..).await` with an eager callee -> mark the call
+        if let Expr::Await(a) = e { self.apply_ufcs(&mut a.base); }
         if let Expr::Await(a) = e {
             let eager = call_last_ident(&a.base).map(|n| self.cx.unit.eager.contains(&n)).unwrap_or(false);
             if eager { let mut base = (*a.base).clone(); let n = call_last_ident(&base).unwrap(); rename_call(&mut base, &format!("{}__hx_eager", n)); self.cx.fire("A1"); *e = base; }
@@ -447,15 +479,7 @@ impl<'c> VisitMut for Rw<'c> {
                 _ => break,
             }
         }
-        // U1: configured UFCS calls become method calls
-        if let Expr::Call(c) = e {
-            let f = nospace(&c.func.to_token_stream().to_string());
-            if self.cx.unit.ufcs.contains(&f) && !c.args.is_empty() {
-                let recv = c.args[0].clone(); let rest: Vec<Expr> = c.args.iter().skip(1).cloned().collect();
-                let m = ident(f.rsplit("::").next().unwrap());
-                self.cx.fire("U1"); *e = parse_quote!(#recv.#m(#(#rest),*));
-            }
-        }
+        self.apply_ufcs(e);
         // statics and other expression-level path rules
         if let Expr::Path(p) = e {
             let key = nospace(&p.to_token_stream().to_string());
@@ -499,7 +523,10 @@ impl<'c> VisitMut for Rw<'c> {
             let args: Vec<Expr> = caps.iter().map(|c| { let id = ident(if self.self_to_this && c == "self" { "this" } else { c }); if is_move { parse_quote!(#id) } else { parse_quote!(&#id) } }).collect();
             self.cx.fire(if is_async { "A3" } else { "L1" });
             self.lifted_closures.push(LiftedClosure { k, name, captures: caps, is_move, inputs, body, is_async_block: is_async, line });
-            *e = parse_quote!(#ctor(#(#args),*));
+            if self.typed_ctors.contains(&format!("{}__new", name_for_ctor(&ctor))) && !self.gen_idents.is_empty() {
+                let gi: Vec<syn::Ident> = self.gen_idents.iter().map(|g| ident(g)).collect();
+                *e = parse_quote!(#ctor::<#(#gi),*>(#(#args),*));
+            } else { *e = parse_quote!(#ctor(#(#args),*)); }
             return;
         }
         // loops: number them in source order and leave a marker for the emitter
@@ -544,6 +571,8 @@ impl<'c> VisitMut for Rw<'c> {
             if let Some(base) = n.strip_suffix("__hx_eager") {
                 let base = base.to_string(); rename_call(e, &base);
                 if self.cx.unit.traced.contains(&base) { push_ghost(e); self.cx.fire("G1"); }
+            } else if self.cx.unit.eagersync.contains(&n) {
+                push_ghost(e); self.cx.fire("G1");
             } else if self.cx.unit.eager.contains(&n) {
                 rename_call(e, &format!("{}__fut", n)); self.cx.fire("A1b");
             } else if self.cx.unit.traced.contains(&n) {
@@ -582,6 +611,17 @@ fn push_ghost(e: &mut Expr) {
     match e { Expr::MethodCall(m) => m.args.push(g), Expr::Call(c) => c.args.push(g), _ => {} }
 }
 impl<'c> Rw<'c> {
+    /// U1: configured UFCS calls become method calls
+    fn apply_ufcs(&mut self, e: &mut Expr) {
+        if let Expr::Call(c) = e {
+            let f = nospace(&c.func.to_token_stream().to_string());
+            if self.cx.unit.ufcs.contains(&f) && !c.args.is_empty() {
+                let recv = c.args[0].clone(); let rest: Vec<Expr> = c.args.iter().skip(1).cloned().collect();
+                let m = ident(f.rsplit("::").next().unwrap());
+                self.cx.fire("U1"); *e = parse_quote!((#recv).#m(#(#rest),*));
+            }
+        }
+    }
     fn map_expr_path(&mut self, p: &mut syn::Path) {
         // the eager marker (A1) travels on the last segment: map the path without it, then put it back
         let marked = p.segments.last().map(|s| s.ident.to_string().ends_with("__hx_eager")).unwrap_or(false);
